@@ -212,8 +212,29 @@ func RunConc(s *kernel.Sim, prof *Profile, free bool) *Env {
 			for _, co := range perClient[c] {
 				s.Park("op", fmt.Sprintf("client%d", c), nil, nil, nil)
 				co.Call = stamp.Add(1)
+				var octx *OpCtx
+				if task != nil {
+					e.opMu.Lock()
+					e.opSeq++
+					octx = &OpCtx{Seq: e.opSeq, Caller: co.Caller, Op: co.Op}
+					e.curOps[task] = octx
+					e.opMu.Unlock()
+				}
 				co.Res = e.Exec(co.Caller, co.Op)
 				co.Ret = stamp.Add(1)
+				if octx != nil {
+					// C06: every audit record of this call was synced before it returned
+					e.Sink.mu.Lock()
+					for _, r := range e.Sink.Recs {
+						if r.OpSeq == octx.Seq && !r.Synced {
+							e.fail("audit-sync", "client %d %s -> %s: the call returned although its audit record had not been synced (a sync that was already in flight when the record was written does not cover it): %s", c, co.Op, co.Res, r.Data)
+						}
+					}
+					e.Sink.mu.Unlock()
+					e.opMu.Lock()
+					delete(e.curOps, task)
+					e.opMu.Unlock()
+				}
 				co.Done = true
 				s.Log("client %d %s -> %s", c, co.Op, co.Res)
 			}
